@@ -148,3 +148,36 @@ Example C18_pastified_nonvacuous :
   rho ExtZArith (fun _ _ => PStd) (pastify DelayOnce (And (Not (OnceT 0 1 p)) g) 2) w 5 1 = NegInf /\
   rho ExtZArith (fun _ _ => PStd) (pastify DelayOnce (And (Not (OnceT 0 1 p)) g) 2) w 5 3 <> NegInf.
 Proof. cbv zeta. repeat split; vm_compute; try reflexivity; discriminate. Qed.
+
+(* the same for the pastifier RE-TRANSLATED from the Python text on every build (PastifyGen.v, tools/py2coq_pastifier.py): for two syntax
+   trees that erase to  l and g  and  r and g  (l, r past-time formulas with the same signal), the trees StlPastifier builds erase to
+   formulas with the same signal at every sample.  A change of the pastifier's delay scheme breaks PastifyGenCorrect.gen_stl_pastify_ok,
+   hence this obligation of C18 (harness/common.py: pastifiergen -> C03, C18). *)
+From Coq Require Import QArith Bool String.
+From RV Require Import Units NodeName PyNode PastifyGen PastifyGenCorrect.
+Close Scope Q_scope.
+Theorem C18_generated_pastifier :
+  forall (VS : Val) (AR : Arith VS) (vidx : string -> string -> nat) (cval : string -> V) (du : tunit) (p : Z) (pu : tunit)
+         (nl nr : NodeName.node) (l r g : formula) (w : trace),
+    (0 < p)%Z ->
+    erase vidx cval du p pu nl = Some (And l g) -> erase vidx cval du p pu nr = Some (And r g) ->
+    bounded_future g = true -> wf_bounds (And l g) = true -> wf_bounds (And r g) = true ->
+    past_only l = true -> past_only r = true -> is_const l = false -> is_const r = false ->
+    (forall n i, rho AR (fun _ _ => PStd) l w n i = rho AR (fun _ _ => PStd) r w n i) ->
+    exists (ml mr : NodeName.node) (fl fr : formula),
+      gen_stl_pastify du (sample_of du p pu) nl = Some ml /\ gen_stl_pastify du (sample_of du p pu) nr = Some mr /\
+      erase vidx cval du p pu ml = Some fl /\ erase vidx cval du p pu mr = Some fr /\
+      forall n i, rho AR (fun _ _ => PStd) fl w n i = rho AR (fun _ _ => PStd) fr w n i.
+Proof.
+  intros VS AR vidx cval du p pu nl nr l r g w Hp El Er Bg Wl Wr Pl Pr Cl Cr E.
+  destruct (Extend.past_hor l Pl) as [Zl Bl]. destruct (Extend.past_hor r Pr) as [Zr Br].
+  assert (BL : bounded_future (And l g) = true) by (cbn [bounded_future]; rewrite Bl, Bg; reflexivity).
+  assert (BR : bounded_future (And r g) = true) by (cbn [bounded_future]; rewrite Br, Bg; reflexivity).
+  destruct (@gen_stl_pastify_ok VS vidx cval du p pu Hp nl (And l g) El BL Wl) as [hl [ml [_ [_ [Hml [_ Eml]]]]]].
+  destruct (@gen_stl_pastify_ok VS vidx cval du p pu Hp nr (And r g) Er BR Wr) as [hr [mr [_ [_ [Hmr [_ Emr]]]]]].
+  exists ml, mr, (pastify DelayOnce (And l g) (hor (And l g))), (pastify DelayOnce (And r g) (hor (And r g))).
+  repeat split; try assumption.
+  intros n i. replace (hor (And r g)) with (hor (And l g)) by (cbn [hor]; rewrite Zl, Zr; reflexivity).
+  apply (C18_pastified_monitor VS AR w l r g Pl Pr Cl Cr E).
+Qed.
+Print Assumptions C18_generated_pastifier.
